@@ -257,6 +257,32 @@ def real_runs(rep, rng, tier):
                                                                             "records": len(s_.dynamics.dt), "updates": nupd})
                         break
             sol.solve_step = -1
+            # history form: the caller changes ITS options object for the next run (another save interval); the times this solution
+            # reports stay those of its own frames
+            k_old = opts.save_every
+            opts.save_every = k_old + 2
+            if len(sol.times) != len(ft) or np.max(np.abs(np.asarray(sol.times) - np.array(ft))) > 1e-12:
+                rep.violation("after the caller changed save_every on its options object (for a later run) the earlier solution reports "
+                              "other times than its frames hold", {"save_every": k, "changed_to": k_old + 2, "times": np.asarray(sol.times).tolist()[:6],
+                                                                   "frame_times": ft[:6]})
+            opts.save_every = k_old
+            # DynamicsData.from_solution: the records rebuilt from the saved frames (at the device's probe points) - one per interval
+            # between frames, the values of the frame that ends the interval, at that frame's time
+            try:
+                from tdgl.solution.data import DynamicsData as _DD
+                dfs = _DD.from_solution(sol.path)
+                pidx_ = np.asarray(dev.probe_point_indices)
+                with h5py.File(sol.path, "r") as f:
+                    keys_ = sorted(f["data"], key=int)
+                    mu_fr = np.stack([np.array(f["data"][k_]["mu"])[pidx_] for k_ in keys_], axis=1)
+                okf = (len(dfs.dt) == len(ft) - 1 and np.asarray(dfs.mu).shape == (len(pidx_), len(ft) - 1)
+                       and np.max(np.abs(np.asarray(dfs.time) - np.array(ft[1:]))) < 1e-12 and np.array_equal(np.asarray(dfs.mu), mu_fr[:, 1:]))
+                if not okf:
+                    rep.violation("DynamicsData.from_solution: the probe records are not aligned with their times (one record per saved frame "
+                                  "after the first, at that frame's time)", {"save_every": k, "frames": len(ft), "dt_entries": int(len(dfs.dt)),
+                                                                             "mu_shape": list(np.asarray(dfs.mu).shape)})
+            except Exception as e:  # noqa: BLE001
+                rep.violation(f"DynamicsData.from_solution raised {type(e).__name__}: {e}"[:200], {"save_every": k})
             # per-step records: one per update, in order - dt, and the potential / phase at the probe points of the state
             # that update produced
             dyn = sol.dynamics
